@@ -314,6 +314,42 @@ wg := WaitGroup()
 		b.WriteString("done.wait\nprintln \"end\"\n")
 		return b.String()
 	}},
+	{"rwmutex_unlock_race", func(r *Rand) string {
+		// several threads release read (or write) locks of one RWMutex that the main thread
+		// takes a few at a time: more releases than holds at some instants. Releasing a lock
+		// nobody holds is an Elk error (caught), never the death of the process
+		releasers, holds, tries := r.Range(2, 3), r.Range(1, 4), r.Range(2, 6)
+		unlock := Pick(r, []string{"read_unlock", "read_unlock", "unlock"})
+		lock := "read_lock"
+		if unlock == "unlock" {
+			lock, holds = "lock", 1
+		}
+		var b strings.Builder
+		fmt.Fprintf(&b, `using Std::Sync::{RWMutex, WaitGroup}
+def release(m: RWMutex, wg: WaitGroup, n: Int)
+  i := 0
+  while i < n
+    i = i + 1
+    do
+      m.%s
+    catch Error()
+      nil
+    end
+  end
+  wg.end
+end
+m := RWMutex()
+wg := WaitGroup(%d)
+`, unlock, releasers)
+		for i := 0; i < holds; i++ {
+			fmt.Fprintf(&b, "m.%s\n", lock)
+		}
+		for i := 0; i < releasers; i++ {
+			fmt.Fprintf(&b, "go release(m, wg, %d)\n", tries)
+		}
+		b.WriteString("wg.wait\nprintln \"end\"\n")
+		return b.String()
+	}},
 	{"dynamic_dispatch_first_calls", func(r *Rand) string {
 		// several threads execute the same dynamically dispatched call sites for the first
 		// time at the same moment, with receivers of different classes (inline method caches)
